@@ -68,7 +68,8 @@ def _tri(n: int) -> int:
 
 def expected_traffic(plan: dict[str, Any], dims: dict[str, tuple],
                      asg: dict[int, Any], rank: int, factor_step: bool,
-                     inv_step: bool) -> tuple[int, Counter]:
+                     inv_step: bool, grads: bool = True,
+                     ) -> tuple[int, Counter]:
     """What the strategy implies for one rank in one step (C13)."""
     world = plan['world']
     sym = plan['placement']['symmetry_aware']
@@ -91,7 +92,7 @@ def expected_traffic(plan: dict[str, Any], dims: dict[str, tuple],
                 sizes = [na * na, na, ng * ng, ng]
             for s in sizes:
                 bc[(col, s)] += 1
-        if k < world:
+        if k < world and grads:
             width = world // k
             row = tuple(range(rank // width * width,
                               rank // width * width + width))
@@ -198,6 +199,8 @@ def analyse(plan: dict[str, Any], result: dict[str, Any]) -> Report:
         for r in recs:
             if recs[r] and recs[r][0].get('op') == 'init':
                 asg[r] = recs[r][0].get('assignment') or {}
+        if k > 0 and plan['world'] > 1 and len(asg) == plan['world']:
+            _restore_traffic(rep, plan, ref, recs, asg)
         complete = True
         for idx, op in incs_plan[k]['ops']:
             by_rank = {}
@@ -235,6 +238,41 @@ def analyse(plan: dict[str, Any], result: dict[str, Any]) -> Report:
     return rep
 
 
+def _restore_traffic(rep: Report, plan: dict[str, Any], ref: R.RefKFAC,
+                     recs: dict[int, Any], asg: dict[int, Any]) -> None:
+    """C13/C03: what load_state_dict communicates is what an inverse-update
+    step would: inverse broadcasts inside gradient-worker groups only."""
+    for r in recs:
+        rec = next((x for x in recs[r] if x.get('op') == 'restore'), None)
+        if rec is None or 'traffic' not in rec or not asg.get(r):
+            continue
+        computed = rec.get('compute_inverses') and rec.get(
+            'include_factors') and all(
+                ref.A[n] is not None and ref.G[n] is not None
+                for n in ref.infos)
+        dims = {n: (int(ref.A[n].shape[0]), int(ref.G[n].shape[0]))
+                for n in ref.infos if ref.A[n] is not None}
+        if computed:
+            _, want = expected_traffic(plan, dims, asg, r, False, True,
+                                       grads=False)
+        else:
+            want = Counter()
+        got: Counter = Counter()
+        for e in rec['traffic']:
+            if e[0] == 'broadcast':
+                got[(tuple(e[3]), e[6])] += 1
+            else:
+                rep.bad('C13.unexpected_collective_in_load', rank=r,
+                        kind=e[0])
+        rep.stats['restore_traffic_checks'] += 1
+        if got != want:
+            rep.bad('C13.load_broadcast_traffic', rank=r,
+                    got=sorted((list(k[0]), k[1], v)
+                               for k, v in got.items()),
+                    want=sorted((list(k[0]), k[1], v)
+                                for k, v in want.items()))
+
+
 def _check_saved_state(rep: Report, rec: dict[str, Any], ref: R.RefKFAC,
                        eps_f: float) -> None:
     """The state handed to torch.save is what the statement says (C09)."""
@@ -262,8 +300,13 @@ def _moments(infos: dict[str, Any], by_rank: dict[int, Any],
                 mas.append(sum(R.second_moment_a(info, a)
                                for a in cap['a']) / len(cap['a']))
             if cap['g']:
-                mgs.append(sum(R.second_moment_g(info, g, ls)
-                               for g in cap['g']) / len(cap['g']))
+                # each micro-batch is divided by the scale it ran under;
+                # after a mid-iteration reset only the later ones remain
+                sc = [None] * len(cap['g']) if not ls \
+                    else ls[len(ls) - len(cap['g']):]
+                mgs.append(sum(R.second_moment_g(info, g, c)
+                               for g, c in zip(cap['g'], sc))
+                           / len(cap['g']))
         ma = sum(mas) / len(mas) if mas else None
         mg = sum(mgs) / len(mgs) if mgs else None
         out[n] = (ma, mg)
@@ -339,7 +382,12 @@ def _train_op(rep: Report, plan: dict[str, Any], ref: R.RefKFAC,
                 rep.stats['grad_comparisons'] += 1
                 if e > bound and not (
                         ref_norm[n] == 0.0 and float(got[n].norm()) == 0.0):
-                    rep.bad('C05.history_grad', rank=r, layer=n, err=e,
+                    # after a restart this is clause (ii) of C09 as well:
+                    # the resumed run must equal the restarted reference
+                    rep.bad('C09.resume_vs_reference' if unint is not None
+                            else 'C05.history_grad',
+                            props=['C05', 'C09'] if unint is not None
+                            else ['C05'], rank=r, layer=n, err=e,
                             bound=bound, key=key, step=s, nu=info['nu'],
                             inv_step=inv_step, factor_step=factor_step)
         # ---- decomposition probes
